@@ -303,6 +303,63 @@ class Seq:
                     rest = rest + _norm([s])
         return Seq(rest), Seq(got)
 
+    def locate(self, pos):
+        """pos: bit position (int or z3 term).  Returns (k, d): the position lies d (concrete) bits into segment k
+        (k == len(segs) and d == 0 for the end).  Symbolic positions must provably coincide with `segment start + d`."""
+        segs = _norm(self.segs)
+        c = None
+        off = 0
+        for k, sg in enumerate(segs + [None]):
+            diff = pos - off if _is_c(pos) and _is_c(off) else z3.simplify(_z(pos) - _z(off))
+            if not _is_c(diff) and z3.is_int_value(diff):
+                diff = diff.as_long()
+            if not _is_c(diff):
+                # ask the solver: is the difference a fixed non-negative number on this path?
+                c = c or ctx()
+                if c._check() == z3.sat:
+                    dv = c.solver.model().eval(diff, model_completion=True)
+                    if z3.is_int_value(dv) and c.valid(diff == dv.as_long()):
+                        diff = dv.as_long()
+            if _is_c(diff) and diff >= 0:
+                if sg is None:
+                    if diff == 0:
+                        return k, 0
+                elif isinstance(sg, Val):
+                    if diff < sg.w:
+                        return k, diff
+                else:
+                    if diff == 0:
+                        return k, 0
+                    w_ = sg.w
+                    if _is_c(w_):
+                        if diff < w_:
+                            return k, diff
+                    else:
+                        c = c or ctx()
+                        if c.valid(_z(w_) > diff):
+                            return k, diff
+            if sg is not None:
+                off = off + sg.w if _is_c(off) and _is_c(sg.w) else z3.simplify(_z(off) + _z(sg.w))
+        raise Unsupported('symbolic position does not provably fall on a known offset of the byte string')
+
+    def cut(self, pos):
+        """(prefix, suffix) at a bit position that may be symbolic (see locate)"""
+        if _is_c(pos) and self.concrete_len():
+            return self.take_front(pos)
+        k, d = self.locate(pos)
+        segs = _norm(self.segs)
+        left, right = list(segs[:k]), list(segs[k:])
+        if d:
+            sg = right.pop(0)
+            if isinstance(sg, Val):
+                a, b = sg.split(d)
+                left.append(a)
+                right.insert(0, b)
+            else:
+                left.append(Val(d, sg.buf.read_front(sg.a, d)))
+                right.insert(0, Opq(sg.buf, sg.a + d, sg.d))
+        return Seq(left), Seq(right)
+
     def value(self):
         """unsigned big-endian value; requires concrete total width"""
         segs = _norm(self.segs)
@@ -389,6 +446,12 @@ def seq_eq(x: Seq, y: Seq):
                 b[0:1] = [Opq(t.buf, t.a, s.d), Val(k, t.buf.read_back(s.d, k))]
         else:
             # opaque window against a value: peel from the window if its width is known to suffice
+            if isinstance(s, Opq) and c.valid(_z(s.w) == 0):
+                a.pop(0)            # an empty window (its length is 0 on this path)
+                continue
+            if isinstance(t, Opq) and c.valid(_z(t.w) == 0):
+                b.pop(0)
+                continue
             if isinstance(s, Opq):
                 if not c.valid(s.w >= t.w):
                     raise Unsupported('comparison of an opaque window with a value of unrelated width')
@@ -510,6 +573,8 @@ class SymBytes:
                     return self.reversed_bytes()
                 raise Unsupported('bytes slice with step')
             start, stop = item.start, item.stop
+            if (type(start) is SymInt or type(stop) is SymInt):
+                return self._sym_slice(0 if start is None else start, stop)
             start = 0 if start is None else self._idx(start, n)
             if stop is not None:
                 stop = self._idx(stop, n)
@@ -547,6 +612,31 @@ class SymBytes:
         got, _ = self.seq.take_front(8 * (i + 1))
         _, b = got.take_back(8)
         return mk_int(_z(b.value()))
+
+    def _sym_slice(self, start, stop):
+        """slice with symbolic bounds (python clamping semantics; bounds must fall on known offsets)"""
+        c = ctx()
+        n = _z(self.seq.length())
+        st = _z(wrap_int(start))
+        if c.branch(st < 0):
+            raise Unsupported('negative symbolic slice start')
+        if c.branch(st * 8 > n):
+            return b''
+        _, rest = self.seq.cut(z3.simplify(st * 8) if not _is_c(wrap_int(start)) else wrap_int(start) * 8)
+        if stop is None:
+            return SymBytes.make(rest)
+        sp = _z(wrap_int(stop))
+        if c.branch(sp < 0):
+            raise Unsupported('negative symbolic slice stop')
+        if c.branch(sp <= st):
+            return b''
+        if c.branch(sp * 8 >= n):
+            return SymBytes.make(rest)
+        want = z3.simplify((sp - st) * 8)
+        if z3.is_int_value(want):
+            want = want.as_long()
+        got, _ = rest.cut(want)
+        return SymBytes.make(got)
 
     def __iter__(self):
         n = self.seq.length()
